@@ -1,5 +1,6 @@
 import Dcg.Driver.Proto
 import Dcg.Py.Lex
+import Dcg.Py.LexState
 namespace Dcg.Driver.Lex
 open Dcg.Driver Dcg.Py.Lex
 
@@ -18,6 +19,11 @@ def handlers : List (String × Handler) := [
   ("lex.lit", two lit),
   ("lex.litraw", two litRaw),
   ("lex.scanlong", two scanLong),
+  ("lex.state", fun
+    | [.atom st, s] => match Dcg.Py.LexState.St.ofName st, s.str? with
+      | some st, some s => "ok " ++ (Dcg.Py.LexState.lexState st s).name
+      | _, _ => "err args"
+    | _ => "err args"),
   ("lex.comment", fun
     | [s] => match s.str? with
       | some s => let p := comment s; "ok " ++ encodeStr p.1 ++ " " ++ encodeStr p.2
